@@ -100,7 +100,7 @@ CONFIG = {
         'rules': [(r'TX:(SendMessage|SendMessageWithCaller|DepositForBurn|DepositForBurnWithCaller|ReplaceMessage|ReplaceDepositForBurn|ReceiveMessage)$', 'R', r'^(ok|err|panic)'), (ANY, 'S', r'^flag '), (r'TX:(Pause|Unpause).*', 'R', None), (r'TX:(Pause|Unpause).*', 'E', None),
                   (r'Q:(BurningAndMintingPaused|SendingAndReceivingMessagesPaused)', 'QR', None)],
         'monitors': [M.mon_c12],
-        'level_text': 'Theorems: with sending-and-receiving paused none of the eight flows succeeds; with burning-and-minting paused no deposit, deposit replacement or module-addressed receive succeeds, while sends, message replacements and other receives are provably independent of that flag (non-interference of the handler function); all 18 administrative handlers are independent of both flags; each flag changes only through its own pause/unpause by the pauser; pausing is idempotent and unpause after pause restores the store. Tied to the Go handlers by exhaustive execution of 4 flag states x 8 flows with otherwise valid inputs, before and after pause/unpause sequences by all accounts. Tied to the Go source twice: by TRANSLATION (tools/goextract reads the handler(s) from /repo on every run and emits Gallina programs; the theorem file proves they equal the model handlers for every request and state wherever the model gives a verdict - evidence lists which functions were translated on this run and which, if any, the translator could not read) and by differential execution.',
+        'level_text': 'Theorems: with sending-and-receiving paused none of the eight flows succeeds; with burning-and-minting paused no deposit, deposit replacement or module-addressed receive succeeds, while sends, message replacements and other receives are provably independent of that flag (non-interference of the handler function); all 18 administrative handlers are independent of both flags; each flag changes only through its own pause/unpause by the pauser; pausing is idempotent and unpause after pause restores the store; along every history without a pause/unpause of a set flag the flag stays set and the number of successful flows it names is 0. Tied to the Go handlers by exhaustive execution of 4 flag states x 8 flows with otherwise valid inputs, before and after pause/unpause sequences by all accounts. Tied to the Go source twice: by TRANSLATION (tools/goextract reads the handler(s) from /repo on every run and emits Gallina programs; the theorem file proves they equal the model handlers for every request and state wherever the model gives a verdict - evidence lists which functions were translated on this run and which, if any, the translator could not read) and by differential execution.',
     },
     'C14': {
         'profiles': [('dropped', 30, 600), ('faults', 6, 80), ('flows', 20, 500)],
